@@ -289,6 +289,10 @@ class Machine:
         elif op == "touch_out":
             if world.exists(path):
                 world.write(path, "user wrote this\n")
+        elif op == "restore_out":
+            data = getattr(world, "last_step_content", {}).get(path)
+            if data is not None:
+                world.write(path, data)
 
     # -- observation ---------------------------------------------------------------------------------
     def raw(self, world, sim):
@@ -350,6 +354,8 @@ class Machine:
                     continue
                 if op == "touch_out" and not exists:
                     continue
+                if op == "restore_out" and path not in getattr(world, "last_step_content", {}):
+                    continue
                 evs.append(("fs", op, path))
         return evs
 
@@ -400,6 +406,10 @@ async def online_command(sim, command, env, cwd):
                 data = ("OUT " + hashlib.sha256((label + path).encode()).hexdigest()[:16] + "\n")
                 try:
                     world.write(path, data, who=label)
+                    # remembered so that a user can later put the very same content back
+                    if not hasattr(world, "last_step_content"):
+                        world.last_step_content = {}
+                    world.last_step_content[path] = data
                 except OSError:
                     pass
             return ChildOutcome(0, "", "")
